@@ -1,10 +1,10 @@
 #!/bin/bash
 # tools/run_all.sh [tier]  -- runs every registered check sequentially, prints a one-line summary each
 TIER=${1:-quick}
-cd /verif
+cd "$(dirname "$0")/.."
 for p in $(/venv/bin/python -c "import json;print(' '.join(c['property_id'] for c in json.load(open('MANIFEST.json'))['checks']))"); do
   s=$(date +%s)
-  ./check $p --tier $TIER > /tmp/runall_$p.log 2>&1; rc=$?
+  ./check $p --tier $TIER > /tmp/runall_${TIER}_$p.log 2>&1; rc=$?
   e=$(date +%s)
-  echo "$p rc=$rc $((e-s))s $(grep -c '^KNOWN' /tmp/runall_$p.log) known; $(grep "^\[$p\] tier" /tmp/runall_$p.log | cut -c1-150)"
+  echo "$p rc=$rc $((e-s))s $(grep -c '^KNOWN' /tmp/runall_${TIER}_$p.log) known; $(grep "^\[$p\] tier" /tmp/runall_${TIER}_$p.log | cut -c1-150)"
 done
